@@ -10,6 +10,7 @@ import DoltVerif.Lemmas.Search
 import DoltVerif.Lemmas.TreeWF
 import DoltVerif.Lemmas.BuildWF
 import DoltVerif.Lemmas.Window
+import DoltVerif.Lemmas.MutMapRefine
 namespace DoltVerif.C11
 open DoltVerif.Prolly DoltVerif.SortedDict
 
@@ -386,6 +387,65 @@ theorem witnessA : run 0 opsA = some [(1, 10)] ∧ SortedDict.run compare [] ops
 def opsB : List (MOp Nat Nat) := [.put 1 10, .checkpoint, .put 2 20, .put 3 30, .revert, .put 4 40, .revert]
 theorem witnessB : run 2 opsB = some [(1, 10), (4, 40)] ∧ SortedDict.run compare [] opsB = [(1, 10)] := by decide
 end Witness
+
+/-- **`mutable_refines_partial`**: for every flush threshold `maxPending` and every sequence of
+puts, deletes, checkpoints and reverts that avoids the two shapes of the known findings
+(`SafeRun`: no checkpoint of an empty pending list; no revert before a checkpoint or on a pending
+list shared with the stash), the mutable map presents exactly the sorted dictionary — whatever
+mix of buffered and flushed edits the threshold forces, including flushes between a checkpoint
+and its revert (the stash path).  `FlushRefines`: each flush yields a tree holding the edited
+content (`applyMutations_wf`). -/
+theorem mutable_refines_partial {σ : Type} [BEq κ] [BEq ν] [Inhabited κ] {C : Cfg σ κ ν} {cmp : κ → κ → Ordering}
+    (hc : TotalPreorder cmp) (hf : FlushRefines C cmp) (base : List (κ × ν)) (hs : Sorted cmp base)
+    (t : Tree κ ν) (ht : t.flatten = base) (maxPending : Nat) (ops : List (MOp κ ν)) (m' : MutMap κ ν)
+    (hsafe : SafeRun C cmp { tree := t, maxPending := maxPending } false ops)
+    (hrun : MutMap.run C cmp { tree := t, maxPending := maxPending } ops = .ok m') :
+    m'.content cmp = SortedDict.run cmp base ops := by
+  have hinit : MInv cmp ({ tree := t, maxPending := maxPending } : MutMap κ ν) ⟨base, base⟩ false := {
+    sortedTree := by rw [ht]; exact hs
+    cur := by show applyEdits cmp t.flatten [] = base; exact ht
+    cpLe := Nat.le_refl _
+    aliasCp := fun ha => by cases ha
+    unseen := fun _ => ⟨rfl, rfl, rfl⟩
+    stashOk := fun s hs' _ => by cases hs'
+    liveOk := fun hseen _ => by cases hseen }
+  exact mutable_run_refines hc hf ops _ m' _ false hinit hsafe hrun
+
+/-- **`checkpoint_revert`** (corollary): under the same hypotheses, whatever happens between a
+checkpoint and the revert — including flushes — the map is back at the checkpointed content. -/
+theorem checkpoint_revert_partial {σ : Type} [BEq κ] [BEq ν] [Inhabited κ] {C : Cfg σ κ ν} {cmp : κ → κ → Ordering}
+    (hc : TotalPreorder cmp) (hf : FlushRefines C cmp) (base : List (κ × ν)) (hs : Sorted cmp base)
+    (t : Tree κ ν) (ht : t.flatten = base) (maxPending : Nat) (ops₁ ops₂ : List (MOp κ ν)) (m' : MutMap κ ν)
+    (hno : ∀ o ∈ ops₂, o matches .put _ _ | .del _)
+    (hsafe : SafeRun C cmp { tree := t, maxPending := maxPending } false (ops₁ ++ [.checkpoint] ++ ops₂ ++ [.revert]))
+    (hrun : MutMap.run C cmp { tree := t, maxPending := maxPending } (ops₁ ++ [.checkpoint] ++ ops₂ ++ [.revert]) = .ok m') :
+    m'.content cmp = SortedDict.run cmp base ops₁ := by
+  rw [mutable_refines_partial hc hf base hs t ht maxPending _ m' hsafe hrun]
+  unfold SortedDict.run
+  simp only [List.foldl_append, List.foldl_cons, List.foldl_nil, Dict.step]
+  -- puts and deletes do not touch the checkpointed content
+  have : ∀ (ops : List (MOp κ ν)) (d : Dict κ ν), (∀ o ∈ ops, o matches .put _ _ | .del _) →
+      (ops.foldl (Dict.step cmp) d).cp = d.cp := by
+    intro ops
+    induction ops with
+    | nil => intro d _; rfl
+    | cons o os ih =>
+      intro d h
+      rw [List.foldl_cons, ih _ (fun x hx => h x (by simp [hx]))]
+      have ho := h o (by simp)
+      cases o <;> simp_all [Dict.step]
+  rw [this ops₂ _ hno]
+
+/-- non-vacuity of `SafeRun`: a history with a flush between a checkpoint and its revert
+(`maxPending = 1`: the third put flushes and moves the checkpoint into the stash), then more edits
+and a fresh checkpoint — and the model's content equals the dictionary's -/
+def Witness.opsSafe : List (MOp Nat Nat) :=
+  [.put 1 10, .checkpoint, .put 2 20, .put 3 30, .revert, .put 4 40, .put 5 50, .checkpoint, .del 1, .revert]
+
+example : SafeRun Witness.C compare { tree := ⟨0, []⟩, maxPending := 1 } false Witness.opsSafe :=
+  safeRun_of_safeRunB _ _ _ _ _ (by decide)
+
+example : Witness.run 1 Witness.opsSafe = some (SortedDict.run compare [] Witness.opsSafe) := by decide
 
 theorem mutable_refines_refuted : ¬ mutable_refines_full := by
   intro h
